@@ -82,7 +82,8 @@ EnumOK(ev) ==
     IN  /\ IsDiscovery(ev.in)
         /\ IF BadRange(r) THEN ev.visited = <<>> /\ ev.term = "error"
            ELSE IF Support(r) = "no" THEN ev.visited = <<>> /\ ev.term \in {"error", "not_found"}      \* rejected with any error
-           ELSE \/ ev.term \in {"not_found", "end"} /\ ev.visited = target      \* every match exactly once, ascending
+           ELSE \/ /\ ev.term \in {"not_found", "end"}                          \* every match exactly once, ascending
+                   /\ \E lo \in LooseOpts(r) : ev.visited = EnumTargetReadable(db, [r EXCEPT !.loose = lo], e)
                 \/ Support(r) = "may" /\ ev.term \in {"error", "not_found"} /\ ev.visited = <<>>
                 \/ /\ r.op = OpReadByType /\ ev.term = "error"                    \* stopped by an unreadable attribute
                    /\ \E i \in 1..Len(Matching(db, r)) : ~Readable(Matching(db, r)[i], e)
